@@ -132,7 +132,7 @@ def php_params(rng, tier):
     top = 4 if tier == 'quick' else 6
     out = [dict(m=m, n=n, functional=f, onto=o) for m in range(top + 1) for n in range(top + 1)
            for f in (False, True) for o in (False, True)]
-    k = 8 if tier == 'quick' else 50
+    k = 14 if tier == 'quick' else 50
     hi = (70, 45) if tier == 'quick' else (120, 60)
     for i in range(k):
         m, n = rng.randint(5, hi[0]), rng.randint(3, hi[1])
@@ -201,7 +201,7 @@ def gphp_params(rng, tier):
             for f in (False, True):
                 for o in (False, True):
                     out.append(dict(L=L, R=R, adj=adj, functional=f, onto=o))
-    k = 8 if tier == 'quick' else 120
+    k = 16 if tier == 'quick' else 120
     for i in range(k):
         L, R = rng.randint(3, 20), rng.randint(3, 20)
         if i == 0:
@@ -332,7 +332,7 @@ def rphp_params(rng, tier):
     out = [dict(m=m, r=r, n=n) for m in range(top + 1) for r in range(top + 1) for n in range(top + 1)]
     if tier != 'quick':
         out += [dict(m=m, r=r, n=n) for (m, r, n) in ((5, 2, 1), (1, 5, 2), (2, 1, 5), (5, 5, 1), (0, 6, 6), (6, 0, 6), (6, 6, 0))]
-    k = 6 if tier == 'quick' else 60
+    k = 12 if tier == 'quick' else 60
     hi = 12 if tier == 'quick' else 25
     for i in range(k):
         out.append(dict(m=rng.randint(0, hi), r=rng.randint(0, hi), n=rng.randint(0, hi), big=True))
@@ -393,7 +393,7 @@ def count_params(rng, tier):
     topM, topp = (5, 4) if tier == 'quick' else (7, 5)
     out = [dict(M=M, p=q) for M in range(topM + 1) for q in range(1, topp + 1)]
     out += [dict(M=6, p=2), dict(M=6, p=3), dict(M=3, p=7)]
-    k = 6 if tier == 'quick' else 40
+    k = 10 if tier == 'quick' else 40
     hi = 11 if tier == 'quick' else 15
     n = 0
     while n < k:
@@ -442,7 +442,7 @@ def count_cli(p, tmpdir):
 def matching_params(rng, tier):
     top = 4 if tier == 'quick' else 5
     out = [dict(n=n, edges=es) for n in range(top + 1) for es in all_simple(n)]
-    k = 8 if tier == 'quick' else 120
+    k = 16 if tier == 'quick' else 120
     for i in range(k):
         n = rng.randint(5, 40 if i % 2 else 14)
         dens = rng.uniform(0.1, 0.9)
@@ -489,7 +489,7 @@ def subsetcard_params(rng, tier):
         for adj in all_bipartite(L, R):
             for eq in (False, True):
                 out.append(dict(L=L, R=R, adj=adj, equalities=eq))
-    k = 8 if tier == 'quick' else 120
+    k = 16 if tier == 'quick' else 120
     for i in range(k):
         if i % 2:
             L, R = rng.randint(3, 20), rng.randint(3, 20)
@@ -551,7 +551,7 @@ def subsetcard_cli(p, tmpdir):
 def cliquecol_params(rng, tier):
     top = 3 if tier == 'quick' else 4
     out = [dict(n=n, k=k, c=c) for n in range(top + 1) for k in range(top + 1) for c in range(top + 1)]
-    kk = 6 if tier == 'quick' else 60
+    kk = 12 if tier == 'quick' else 60
     hi = 9 if tier == 'quick' else 14
     for i in range(kk):
         out.append(dict(n=rng.randint(3, hi), k=rng.randint(0, 7), c=rng.randint(0, 7), big=True))
